@@ -102,7 +102,9 @@ def crosscheck_handler(V, prop, handler, tier, runs, env):
     n_want = int(os.environ.get("VERIF_KERNEL_N", "0") or 0) or (mod.QUICK_N if tier == "quick" else mod.THOROUGH_N)
     # skip / error lines have no model output
     usable = [(tag, cf, [r for r in res]) for tag, cf, res in runs]
-    chosen = sample(usable, n_want, 0.25 if tier == "quick" else 1.0)
+    cap = getattr(mod, "MAX_CASE_CHARS", {}).get(tier)
+    # a module with a size cap gets more candidates, of which the first n_want that fit are kept
+    chosen = sample(usable, n_want * (5 if cap else 1), 0.25 if tier == "quick" else 1.0)
     chosen = [c for c in chosen if c[2]["status"] in ("ok", "diff", "fail", "skip")]
     kdir = os.path.join(V, ".build", "kernel", prop)
     os.makedirs(kdir, exist_ok=True)
@@ -112,6 +114,13 @@ def crosscheck_handler(V, prop, handler, tier, runs, env):
     lines = fetch_lines(chosen)
     if any(l is None for l in lines):
         raise KernelInfra("case file shorter than its result file")
+    too_long = 0
+    if cap:
+        fit = [k for k, l in enumerate(lines) if len(l) <= cap]
+        too_long = len(lines) - len(fit)
+        if len(fit) > n_want:        # keep them evenly spread
+            fit = [fit[i] for i in pick_indices(len(fit), n_want)]
+        chosen, lines = [chosen[k] for k in fit], [lines[k] for k in fit]
     sample_file = os.path.join(kdir, "sample_%s.cases" % handler)
     with open(sample_file, "w", encoding="latin-1") as f:
         for l in lines:
@@ -179,6 +188,9 @@ def crosscheck_handler(V, prop, handler, tier, runs, env):
     out.update(cases=len(chosen) - noout, agree=agree, diverge=len(diverge), diverge_on_oracle_failures=excused,
                no_model_output=noout, not_translated=len(skipped), shards=len(shards), wall_s=round(time.time() - t0, 1),
                sample_file=os.path.relpath(sample_file, V))
+    if cap:
+        out["size_cap_chars"] = cap
+        out["candidates_over_the_cap"] = too_long
     if skipped:
         out["not_translated_example"] = sorted(skipped.items())[0][1]
     return out, diverge
